@@ -216,6 +216,23 @@ def _run(case, ctx):
                           f'after raising {chans[q]["f"]} by {up_db} dB: ch {f}: code {got_r[f]!r} reference {r!r}')
             return
 
+    # ---- the same spectrum given as a list of carriers (the user-facing entry point, a dict keyed by frequency filled in the
+    # presented / sorted / reversed order): same NLI per frequency
+    from gnpy.core.info import Carrier, carriers_to_spectral_information
+    from gnpy.core.science_utils import NliSolver, RamanSolver
+    for name, order in (('presented', list(range(n))), ('sorted', by_f), ('reversed', by_f[::-1])):
+        carriers = {chans[i]['f']: Carrier(delta_pdb=0.0, baud_rate=chans[i]['baud'], slot_width=chans[i]['slot'],
+                                           roll_off=chans[i]['roll'], tx_osnr=chans[i]['tx_osnr'], tx_power=powers[i],
+                                           label=chans[i]['label']) for i in order}
+        si_c = carriers_to_spectral_information(carriers, power=1e-3)
+        fib_c = fibres.make_fiber(fp)
+        nli_c = NliSolver.compute_nli(si_c, RamanSolver.calculate_stimulated_raman_scattering(si_c, fib_c), fib_c)
+        alt = {float(f): float(x) for f, x in zip(si_c.frequency, nli_c)}
+        bad = next((f for f in freqs if f not in alt or not _close(alt[f], got[f], 1e-12)), None)
+        if bad is not None:
+            ctx.violation('compute_nli:carrier-list-gives-another-result',
+                          f'{name} order: ch {bad}: {alt.get(bad)!r} vs {got[bad]!r}')
+            return
     # ---- order of the supplied arrays is irrelevant (exact)
     for name, order in (('sorted', by_f), ('reversed', list(range(n))[::-1])):
         alt = _code_nli(chans, fp, powers, order)
